@@ -280,11 +280,23 @@ def r09_3(rep: Report) -> None:
     # publishTime has whole seconds, so int() loses nothing
     tt = rep.repo.tree('dashlive/mpeg/dash/timing.py')
     tinit = need(find_func(need(find_class(tt, 'DashTiming'), 'DashTiming'), '__init__'), 'DashTiming.__init__')
-    if 'self.publishTime = now.replace(microsecond=0)' in norm(tinit):
-        rep.ok(rid, 'dashlive/mpeg/dash/timing.py::DashTiming.__init__', 'publishTime has whole seconds')
+    # the time algebra of C08 (sa/timealg.py) interprets DashTiming.__init__ + calculate_live_params:
+    # on every exit publishTime must be known to lie on a whole second, whatever the start value
+    from . import c08
+    sub = Report('C08', rep.repo, 'quick')
+    c08.analyse(sub)
+    frac = [f for f in sub.findings if f.rule == 'R08.2' and f.key.startswith('publishTime whole second')]
+    from ..core import load_known, match_known
+    known_c08, _ = load_known('C08')
+    frac = [f for f in frac if match_known(f, known_c08) is None]
+    tconstruct = 'dashlive/mpeg/dash/timing.py::DashTiming.calculate_live_params'
+    if not frac:
+        rep.ok(rid, tconstruct, 'publishTime has whole seconds',
+               'every exit of the live timing calculation implies a whole-second publishTime')
     else:
-        rep.fail(rid, 'dashlive/mpeg/dash/timing.py::DashTiming.__init__', 'publishTime has whole seconds',
-                 'publishTime keeps sub-second precision that int(timestamp()) drops', tinit)
+        rep.fail(rid, tconstruct, 'publishTime has whole seconds',
+                 f'publishTime keeps sub-second precision that int(timestamp()) in the patch URL drops '
+                 f'({frac[0].key}: {frac[0].message[:120]})', tinit)
     # manifests that advertise patches satisfy ServePatch's demands
     mtree = rep.repo.tree('dashlive/server/manifests.py')
     n = 0
